@@ -22,6 +22,7 @@ import (
 	"sort"
 	"strings"
 	"syscall"
+	"time"
 
 	"github.com/benoitkugler/gomacro/generator"
 	"github.com/benoitkugler/gomacro/verifsim"
@@ -56,6 +57,8 @@ type params struct {
 	// started at all (*exec.Error / *fs.PathError: removed after the probe,
 	// bad interpreter, permission)
 	FailMode string `json:"fail_mode"`
+	// SlowMs is the simulated duration of every command of a tool, in ms
+	SlowMs map[string]int `json:"slow_ms,omitempty"`
 }
 
 type c20 struct{}
@@ -107,6 +110,12 @@ func (c20) Generate(env *kernel.Env, r *kernel.Rand, index int) any {
 	}
 	p.SwitchDen = kernel.Pick(r, []int{1, 1, 2, 3, 6})
 	p.FailMode = kernel.Pick(r, []string{"exit", "exit", "start", "signal"})
+	// simulated durations: all below the few seconds a sensible per-command
+	// timeout would allow, but adding up across tools
+	p.SlowMs = map[string]int{}
+	for _, t := range toolNames {
+		p.SlowMs[t] = kernel.Pick(r, []int{0, 0, 1, 50, 2000, 4000})
+	}
 	// swarm: some runs hammer one format (maximal contention on one cache slot)
 	focus := -1
 	if r.Chance(1, 2) {
@@ -314,7 +323,11 @@ func (c20) Execute(env *kernel.Env, raw json.RawMessage, ch *kernel.Choices) *ke
 	w.outDir = filepath.Join(env.Scratch, fmt.Sprintf("c20-out-%d", os.Getpid()))
 	verifsim.ExecHook = w.exec
 	verifsim.LookPathHook = w.lookPath
-	defer func() { verifsim.ExecHook, verifsim.LookPathHook = nil, nil }()
+	verifsim.ExecDurationHook = func(name string, args []string) time.Duration {
+		tool, _, _ := w.classify(name, args)
+		return time.Duration(p.SlowMs[tool]) * time.Millisecond
+	}
+	defer func() { verifsim.ExecHook, verifsim.LookPathHook, verifsim.ExecDurationHook = nil, nil, nil }()
 
 	var schedule strings.Builder
 	outDir := filepath.Join(env.Scratch, fmt.Sprintf("c20-out-%d", os.Getpid()))
@@ -377,6 +390,7 @@ func (c20) Execute(env *kernel.Env, raw json.RawMessage, ch *kernel.Choices) *ke
 		kernel.Harnessf("unknown entry %q", p.Entry)
 	}
 	out.Steps = sim.Steps
+	out.ProbeN("simulated_ms", int64(sim.Elapsed()/time.Millisecond))
 	if st, ok := runErr.(verifsim.Stuck); ok {
 		kernel.Harnessf("%s", st.Msg)
 	}
